@@ -13,6 +13,7 @@ package variable
 //@   ensures res != nil && fresh(res) && absval(res) == VStr(str)
 //
 //@ func (v *Value) ToString() (res string)
+//@   unreachable "return \"\""   // defensive: a well-formed value is one of the three
 //@   float ieee
 //@   requires wfVal(v)
 //@   ensures "display": res == display(absval(v))
